@@ -99,6 +99,12 @@ def trees(tier):
             for eff in ("", "STL"):
                 yield mk("TX", "S", "0", "return", [mk(k, eff, v1, "valmix"), mk(k, eff, v2, "valmix", twin=True)])
                 yield mk("TX", "S", "0", "return", [mk("CALL", "S", "x", "return", [mk(k, eff, "fwd" if v1 == "x" else v1, "valmix"), mk(k, eff, "fwd" if v2 == "x" else v2, "valmix", twin=True)])])
+    # callees that hand back fewer bytes than the caller's return window (which the caller has filled beforehand)
+    for kind in ("CALL", "STATICCALL", "DELEGATECALL", "CALLCODE"):
+        for oc in ("short", "shortrev"):
+            for eff in ("", "STL"):
+                yield mk("TX", "S", "0", "return", [mk(kind, eff, "0", oc)])
+                yield mk("TX", "S", "0", "return", [mk("CALL", "S", "0", "return", [mk(kind, eff, "0", oc)])])
     # value-bearing calls of a frame to its own address
     for v, post in itertools.product(("x", "k1", "0"), ("", "S")):
         yield mk("TX", "S", "0", "return", [mk("SELFCALL", "", v, "stop")], post=post)
